@@ -1229,6 +1229,8 @@ fn designator_to_asg(
                 };
                 Some(width)
             } else {
+                // A designator must be a compile-time constant.
+                context.insert_error(ConstIntegerError, &identifier);
                 None
             }
         }
